@@ -250,9 +250,57 @@ def make_pairing(nentries, props=("C17",), known=()):
     return h, {}
 
 
+def make_gitref(props=("C17",), known=()):
+    """is_gitref(candidate): a candidate that exists on disk (file OR
+    directory) is a path, never a ref; otherwise it is a ref iff git says so;
+    the null file is never a ref.  resolve_diff_args must then route it to
+    base/remote or to the path filters accordingly."""
+    def h(E):
+        import os
+        import tempfile
+        import shutil
+        import argparse
+        import nbdime.gitfiles as gf
+        import nbdime.args as nargs
+        kind = ("absent", "file", "dir", "null")[E.choice("kind", 4)]
+        valid = bool(E.choice("validref", 2))
+        td = tempfile.mkdtemp(prefix="vfc17r")
+        saved = (gf.is_valid_gitref, nargs.is_gitref)
+        try:
+            if kind == "file":
+                cand = os.path.join(td, "docs")
+                open(cand, "w").close()
+            elif kind == "dir":
+                cand = os.path.join(td, "docs")
+                os.mkdir(cand)
+            elif kind == "null":
+                from nbdime.utils import EXPLICIT_MISSING_FILE
+                cand = EXPLICIT_MISSING_FILE
+            else:
+                cand = os.path.join(td, "docs")
+            gf.is_valid_gitref = lambda ref, path=None: valid
+            got = gf.is_gitref(cand)
+            want = (kind == "absent") and valid
+            E.nontrivial(kind in ("file", "dir"))
+            E.goal("existing-directory-that-is-also-a-ref", kind == "dir" and valid)
+            E.check("is_gitref==(not on disk and valid ref)", got == want, info="kind %s valid %s got %r" % (kind, valid, got))
+            # one positional argument: ref -> base, path -> filter against HEAD
+            nargs.is_gitref = gf.is_gitref
+            a = argparse.Namespace(base=cand, remote=None, paths=None)
+            base, remote, paths = nargs.resolve_diff_args(a)
+            if want:
+                E.check("single-ref-argument-is-the-base", base == cand and not paths, info=repr((base, remote, paths)))
+            else:
+                E.check("single-path-argument-filters-HEAD", base == "HEAD" and paths == cand, info=repr((base, remote, paths)))
+        finally:
+            gf.is_valid_gitref, nargs.is_gitref = saved
+            shutil.rmtree(td, ignore_errors=True)
+    return h, {}
+
+
 def shards(tier, props, known):
     kw = dict(props=tuple(props), known=tuple(known))
-    out = [("make_pushd", "pushd", dict(**kw))]
+    out = [("make_pushd", "pushd", dict(**kw)), ("make_gitref", "gitref", dict(**kw))]
     for n in range(0, 3 if tier == "quick" else 4):
         out.append(("make_pairing", "pairing-%d" % n, dict(nentries=n, **kw)))
     return out
